@@ -63,6 +63,34 @@ impl Monitor for C08 {
                 ctx.check(&Case::new(ev, "literal", s, Val::C(1.5, -2.0)), &|c, st| self.judge(c, st));
             }
         }
+        // the periodic functions many periods from the origin: exp, sinh, cosh with a large imaginary
+        // part, sin, cos with a large real part (2^k, 10^k, random magnitudes up to 1e12), operands as
+        // literals and through @ (seeded change C08-r9: a home-made phase reduction in exp, off by more
+        // than 1e-9 from about 2^24)
+        {
+            let n = ctx.tier.pick(6_000u64, 120_000);
+            for i in 0..n {
+                if !ctx.mine() {
+                    continue;
+                }
+                let mut rng = ctx.rng("large-phase", i);
+                let big = match rng.below(4) {
+                    0 => 2f64.powi(5 + rng.below(36) as i32),
+                    1 => 10f64.powi(2 + rng.below(11) as i32),
+                    2 => (10f64.powf(2.0 + rng.unit() * 10.0) * 8.0).round() / 8.0,
+                    _ => (2f64.powi(20 + rng.below(20) as i32) + rng.below(1000) as f64) + 0.25 * rng.below(4) as f64,
+                } * if rng.chance(1, 2) { -1.0 } else { 1.0 };
+                let small = ((rng.unit() * 8.0 - 4.0) * 64.0).round() / 64.0;
+                let (f, z) = match rng.below(5) {
+                    0 | 1 => ("exp", (small, big)),
+                    2 => ("sinh", (small, big)),
+                    3 => (*rng.pick(&["sin", "cos"][..]), (big, small)),
+                    _ => ("cosh", (small, big)),
+                };
+                let (s, ph) = if rng.chance(1, 3) { (format!("{}(@)", f), Val::C(z.0, z.1)) } else { (format!("{}({})", f, cpx_expr(z.0, z.1)), z0) };
+                ctx.check(&Case::new(ev, "large-phase", &s, ph), &|c, st| self.judge(c, st));
+            }
+        }
         // depth-1: operators and functions over generic operands
         let n = ctx.tier.pick(40_000u64, 800_000);
         let funcs = cpx_funcs();
